@@ -81,3 +81,8 @@ Definition go_err_isnil (e : option string) : bool := match e with None => true 
 Definition go_substr (s : string) (lo hi : Z) : string := substring (Z.to_nat lo) (Z.to_nat hi - Z.to_nat lo) s.
 (* l == nil for a slice (a nil slice and an empty one are the same list) *)
 Definition go_lnil {A} (l : list A) : bool := match l with [] => true | _ => false end.
+
+(* effects on abstract values, in order: a field assigned (by the name of the observation it would be read through),
+   a method called for its effect.  A function whose body has such effects carries the log; every observation that is
+   a call (a method, an untranslated function) is a function of the log so far. *)
+Inductive go_event := GoSetS (field : string) (v : string) | GoSetZ (field : string) (v : Z) | GoSetB (field : string) (v : bool) | GoDo (call : string).
